@@ -85,6 +85,13 @@ class C08(SessimProp):
             pdefs, top = sites.place(expr, rng.choice(sites.PLACEMENTS), tag="w")
             defs = "\n".join(x for x in [imports, sites.LANG_DEFS, pdefs, defs] if x)
             main = main[:-1] + [top]
+        elif rng.chance(0.25):
+            # the request ends in a statement rather than an expression: a toplevel loop, an update
+            tail = rng.choice(["for zq in [1, 2, 3] { println(\"zl:\" ^ string_repr(zq)) }",
+                               "let zw = 0 while zw < 3 { zw += 1 println(\"zw:\" ^ string_repr(zw)) }",
+                               "for zq in [4, 5] { if zq > 4 { break } println(\"zb\") }",
+                               "let zu = 1 zu += 2", "if 1 < 2 { println(\"zi\") }"])
+            main = main[:-1] + [tail] if rng.chance(0.5) else main + [tail]
         return {"defs": defs, "main": main, "plan_seed": rng.u64(), "tier": tier}
 
     # ---- running one plan -------------------------------------------
